@@ -457,8 +457,11 @@ func (c *SCIONClient) measureClockOffsetSCION(ctx context.Context, mtrcs *scionC
 			decoded[len(decoded)-2] == slayers.LayerTypeEndToEndExtn {
 			tsOpt, err := e2eLayer.FindOption(scion.OptTypeTimestamp)
 			if err == nil {
+				// The option is added by the local end host's dispatcher when it
+				// forwards the packet; it is not authenticated. Only use a value
+				// that lies between sending the request and reading the response.
 				cRxTime0, err := udp.TimestampFromOOBData(tsOpt.OptData)
-				if err == nil {
+				if err == nil && !cRxTime0.Before(cTxTime1) && !cRxTime0.After(cRxTime) {
 					cRxTime = cRxTime0
 				}
 			}
